@@ -59,3 +59,13 @@ package network
 //@   ensures [no-receiver] dtnet.receiver == nil ==> called(Stream.Reset, _) && never(FromNet)
 //@   ensures [malformed] calls(FromNet) >= 1 && ret_last(FromNet, 1) != nil && ret_last(FromNet, 1) != io.EOF && ret_last(FromNet, 1) != io.ErrUnexpectedEOF ==>
 //@       calls(Stream.Reset) >= 1 && spawned(Receiver.ReceiveError)
+
+// lock effects of this package's interfaces (C20)
+//@ extern func (network.Receiver).ReceiveRequest
+//@   acquires {C20} nothing
+//@ extern func (network.Receiver).ReceiveResponse
+//@   acquires {C20} nothing
+//@ extern func (network.Receiver).ReceiveRestartExistingChannelRequest
+//@   acquires {C20} channelmonitor.Monitor.lk, channelmonitor.monitoredChannel.shutdownLk, graphsync.Transport.dtChannelsLk, graphsync.dtChannel.lk, graphsync.dtChannel.optionsLk, registry.Registry.registryLk, tracing.SpansIndex.spansLk, transportoptions.TransportOptions.optionsLk
+//@ extern func (network.Receiver).ReceiveError
+//@   acquires {C20} nothing
